@@ -639,7 +639,9 @@ def check_roots(ctx, w: World, roots=None) -> None:
             elif n[0] == "F" and n[1] not in seen_f:
                 seen_f.add(n[1])
                 stack.extend(s.fcont.get(n[1], ()))
-        direct = [n for n in s.ret if n[0] == "G" and not imm_result and (n[2] == 0 or not imm_elems)]
+        # a module-level object (or a component of one, at whatever depth: `return TABLE[key]`) that is itself the returned value:
+        # unless the declared result type is immutable, the caller holds a reference into module-level state
+        direct = [n for n in s.ret if n[0] == "G" and not imm_result]
         if direct or shared:
             n = (direct or sorted(shared))[0]
             ctx.bad("C17.4", f"{root} returns (part of) the shared object {n[1]}", where,
